@@ -115,12 +115,12 @@ def run_case(seed, tier, rec, st):
     try:
         fam.exec_src(PRE)
         mod = fam.module
-        entry = rng.choice(["mixin", "mixin", "codec", "nested", "format"])
-        flavour = "fmt_bytes" if entry == "format" else rng.choice([f for f in FLAVOURS if f != "fmt_bytes"])
+        entry = rng.choice(["mixin", "mixin", "codec", "nested", "format", "format-codec"])
+        flavour = "fmt_bytes" if entry in ("format", "format-codec") else rng.choice([f for f in FLAVOURS if f != "fmt_bytes"])
         ann, keymap, val_src, wire_src = FLAVOURS[flavour]
         keys = [k for k in KEYS if k in keymap]
         universe = [("field_opt", None), ("field_strat", None)] if flavour not in WRAP else []
-        srcs = [s for s in SOURCES if not (s == "dd" and entry != "codec") and not (s == "call" and entry == "codec")]
+        srcs = [s for s in SOURCES if not (s == "dd" and entry not in ("codec", "format-codec")) and not (s == "call" and entry in ("codec", "format-codec"))]
         universe += [(s, k) for s in srcs for k in keys]
         p = rng.choice([0.15, 0.3, 0.5])
         enabled = [u for u in universe if rng.random() < p]
@@ -155,7 +155,7 @@ def run_case(seed, tier, rec, st):
         lines = ["class CallD(Dialect):", f"    serialization_strategy = {reg('call')}",
                  "class CfgD(Dialect):", f"    serialization_strategy = {reg('cfgd')}",
                  "class DD(Dialect):", f"    serialization_strategy = {reg('dd')}",
-                 "@dataclass", "class M(" + ("DataClassMessagePackMixin" if entry == "format" else "DataClassDictMixin" if entry != "codec" else "") + "):"]
+                 "@dataclass", "class M(" + ("DataClassMessagePackMixin" if entry == "format" else "DataClassDictMixin" if entry not in ("codec", "format-codec") else "") + "):"]
         lines[-1] = lines[-1].replace("()", "")
         fargs = [f"default_factory=lambda: {val_src}"]
         if meta:
@@ -204,6 +204,34 @@ def run_case(seed, tier, rec, st):
         wire = eval(wire_src, mod.__dict__)
         if entry == "format":
             format_entry(rec, rng, mod, M, kw, winner, styles, value, wire, det, facts, enabled)
+            return
+        if entry == "format-codec":
+            # msgpack codec objects: the user's default_dialect sits ABOVE the format dialect (bytes: pass_through)
+            import msgpack
+            from mashumaro.codecs.msgpack import MessagePackDecoder, MessagePackEncoder
+            for direction in ("S", "D"):
+                rec.evaluation()
+                w = winner(direction)
+                try:
+                    if direction == "S":
+                        out = msgpack.unpackb(MessagePackEncoder(M, default_dialect=mod.DD).encode(M(x=value)), raw=False)["x"]
+                        given = value
+                    else:
+                        given = wire
+                        out = MessagePackDecoder(M, default_dialect=mod.DD).decode(msgpack.packb({"x": wire}, use_bin_type=True)).x
+                except Exception as e:
+                    rec.violation(f"exception:format-codec:{direction}:{type(e).__name__}", det(error=f"{type(e).__name__}: {e}"[:300], expected_winner=repr(w)), facts)
+                    continue
+                if w is None or styles[w] in ("pt", "pass_through"):
+                    ok = out == given and type(out) is bytes
+                else:
+                    tag = w[0] if w[1] is None else f"{w[0]}:{w[1]}"
+                    ok = list(out) == [direction, tag, given] if isinstance(out, (list, tuple)) else False
+                if ok:
+                    rec.count("agree")
+                    rec.nontrivial(("format-codec", tuple(sorted(map(str, enabled))), tuple(sorted((str(k), v) for k, v in styles.items())), direction))
+                else:
+                    rec.violation(f"wrong-level:format-codec:{direction}", det(direction=direction, expected_winner=repr(w), style=styles.get(w), observed=repr(out)[:120]), facts)
             return
         # ---- serialize
         for direction in ("S", "D"):
